@@ -32,9 +32,10 @@ def run_one(m, tier, tests):
         for e in m['edits']:
             p = os.path.join(dst, e['file'])
             s = open(p).read()
-            if s.count(e['old']) != 1:
+            # 'count': n -> the pattern may occur several times (two copies of the same code), the first n are changed
+            if s.count(e['old']) != 1 and not (e.get('count') and s.count(e['old']) >= e['count']):
                 return dict(id=m['id'], status='BAD-MUTANT', note='pattern occurs %d times in %s' % (s.count(e['old']), e['file']))
-            open(p, 'w').write(s.replace(e['old'], e['new']))
+            open(p, 'w').write(s.replace(e['old'], e['new'], e.get('count', 1)))
         out = dict(id=m['id'], property=m['property'])
         if tests:
             r = subprocess.run(['/venv/bin/python', '-m', 'pytest', '-q', '-p', 'no:cacheprovider', '-x', 'yabgp'], cwd=dst,
